@@ -364,22 +364,71 @@ func main() {
 
 	log.Infof("%s", banner(cfg))
 	// Used to not log out the proxy, which has potentially secret credentials
-	var proxy bool = false
-	for i := range os.Args {
-		if proxy {
-			log.Debugf("ARGV[%d]: **REDACTED**", i)
-			proxy = false
-		} else {
-			log.Debugf("ARGV[%d]: %s", i, os.Args[i])
-			if "--proxy" == os.Args[i] {
-				proxy = true
-			}
-		}
+	for i, arg := range redactArgs(os.Args) {
+		log.Debugf("ARGV[%d]: %s", i, arg)
 	}
 	log.Debugf("process role is %v", cfg.Role)
 
 	run(cfg)
 	os.Exit(exitStatus)
+}
+
+// redactArgs returns a copy of args that is safe to log: the proxy setting,
+// which potentially holds secret credentials, is replaced in every spelling
+// the flag parsers accept (-proxy v, --proxy v, --proxy=v, the legacy -x and
+// a --define whose setting mentions the proxy).
+func redactArgs(args []string) []string {
+	const redacted = "**REDACTED**"
+
+	out := make([]string, len(args))
+	redactNext := false // the next argument is the proxy value
+	defineNext := false // the next argument is a --define setting
+
+	for i, arg := range args {
+		out[i] = arg
+
+		if redactNext {
+			out[i] = redacted
+			redactNext = false
+			continue
+		}
+		if defineNext {
+			if strings.Contains(arg, "proxy") {
+				out[i] = redacted
+			}
+			defineNext = false
+			continue
+		}
+
+		if len(arg) < 2 || arg[0] != '-' {
+			continue
+		}
+		name := arg[1:]
+		if name[0] == '-' {
+			name = name[1:]
+		}
+		value, hasValue := "", false
+		if eq := strings.IndexByte(name, '='); eq >= 0 {
+			name, value, hasValue = name[:eq], name[eq+1:], true
+		}
+
+		switch name {
+		case "proxy", "x":
+			if hasValue {
+				out[i] = arg[:len(arg)-len(value)] + redacted
+			} else {
+				redactNext = true
+			}
+		case "define":
+			if !hasValue {
+				defineNext = true
+			} else if strings.Contains(value, "proxy") {
+				out[i] = arg[:len(arg)-len(value)] + redacted
+			}
+		}
+	}
+
+	return out
 }
 
 func createLegacyFlagSet(cfg *Config) *flag.FlagSet {
